@@ -255,12 +255,77 @@ pub fn strategy(budget: u128, wide: bool) -> impl Strategy<Value = Case> {
     })
 }
 
+/// three weights whose f32 product depends on the order of the multiplications and straddles a
+/// "natural" threshold (EPSILON, 2^-24, 1e-6, 1e-7, 1e-9, 1e-3, MIN_POSITIVE): the player-order
+/// relation must not be sensitive to such rounding
+pub fn threshold_triple(seed: u64) -> Option<([f32; 3], f32)> {
+    const T: [f32; 7] = [f32::EPSILON, 5.9604645e-8, 1.0e-6, 1.0e-7, 1.0e-9, 1.0e-3, f32::MIN_POSITIVE];
+    let mut x = mix64(seed);
+    for _ in 0..4000 {
+        x = mix64(x);
+        let t = T[(x % 7) as usize];
+        let a = 0.002 + ((x >> 8) % 100_000) as f32 / 100_000.0 * 0.9;
+        x = mix64(x);
+        let b = 0.002 + ((x >> 8) % 100_000) as f32 / 100_000.0 * 0.9;
+        let c0 = t / (a * b);
+        if !(c0 > 0.0 && c0 <= 1.0) {
+            continue;
+        }
+        for d in -3i32..=3 {
+            let c = f32::from_bits((c0.to_bits() as i64 + d as i64) as u32);
+            if !(c > 0.0 && c <= 1.0) {
+                continue;
+            }
+            let p = [(a * b) * c, (a * c) * b, (b * c) * a];
+            let (lo, hi) = (p.iter().cloned().fold(f32::MAX, f32::min), p.iter().cloned().fold(0.0f32, f32::max));
+            if lo < hi && lo < t && t <= hi {
+                return Some(([a, b, c], t));
+            }
+        }
+    }
+    None
+}
+
+pub fn threshold_strategy() -> impl Strategy<Value = Case> {
+    (flushy_flop(), proptest::sample::subsequence((0..52u8).collect::<Vec<_>>(), 12), any::<u64>(), 1usize..24, proptest::collection::vec(1usize..=2, 3)).prop_map(|(flop, cards, seed, si, sizes)| {
+        let (w, _) = threshold_triple(seed).unwrap_or(([0.5, 0.25, 0.125], 0.0));
+        let free: Vec<u8> = cards.into_iter().filter(|c| !flop.contains(c)).collect();
+        let mut ranges = vec![];
+        let mut k = 0;
+        for (i, n) in sizes.iter().enumerate() {
+            let mut combos = vec![];
+            for _ in 0..*n {
+                if k + 1 < free.len() {
+                    let p = norm_pair(free[k], free[k + 1]);
+                    combos.push((p.0, p.1, w[i]));
+                    k += 2;
+                }
+            }
+            if combos.is_empty() {
+                let p = norm_pair(free[0], free[1]);
+                combos.push((p.0, p.1, w[i]));
+            }
+            ranges.push(RangeSpec { combos });
+        }
+        let mut x = mix64(seed ^ 0x5555);
+        let mut pi: Vec<usize> = vec![0, 1, 2];
+        for i in (1..3).rev() {
+            x = mix64(x);
+            pi.swap(i, (x % (i as u64 + 1)) as usize);
+        }
+        if pi == [0, 1, 2] {
+            pi = vec![2, 0, 1];
+        }
+        Case { cfg: Config { flop, ranges, scope: None }, sigma: PERMS4[si], pi }
+    })
+}
+
 pub fn brief(c: &Case) -> Value {
     json!({"cfg": c.cfg.brief(), "sigma": (0..4).map(|i| format!("{}->{}", SUIT_CH[i], SUIT_CH[c.sigma[i] as usize])).collect::<Vec<_>>().join(" "), "pi": c.pi})
 }
 
 pub fn run(ctx: &mut Ctx) {
-    ctx.rule = "proptest metamorphic cases: flop biased to 2-3 cards of one suit, 2-4 players with suit-asymmetric ranges (single-suit ranges, explicit combos, card pools, a mirrored second player for ties; stream wide_ranges: a range of 256-700 combos beside a narrow one), a non-identity suit permutation (all 23) and a player permutation. Relations: integer tallies wins[player][k-way] and the showdown count are equal after relabelling flop and ranges, and permute with the players; in every showdown flagged winners == winner_len >= 1 (shares of 1/winner_len sum to one pot, rational arithmetic). Non-trivial = some winning-or-losing flush hand lies in a suit the permutation moves AND >= 1 tie AND >= 2 players win something AND the player order changes; distinct by case.".into();
+    ctx.rule = "proptest metamorphic cases: flop biased to 2-3 cards of one suit, 2-4 players with suit-asymmetric ranges (single-suit ranges, explicit combos, card pools, a mirrored second player for ties; stream wide_ranges: a range of 256-700 combos beside a narrow one), a non-identity suit permutation (all 23) and a player permutation; stream order_sensitive_weight_products: three players whose weights are constructed so that the f32 product depends on the multiplication order and straddles a natural threshold (EPSILON, 2^-24, 1e-6, 1e-7, 1e-9, 1e-3, MIN_POSITIVE), checked in all six player orders. Relations: integer tallies wins[player][k-way] and the showdown count are equal after relabelling flop and ranges, and permute with the players; in every showdown flagged winners == winner_len >= 1 (shares of 1/winner_len sum to one pot, rational arithmetic). Non-trivial = some winning-or-losing flush hand lies in a suit the permutation moves AND >= 1 tie AND >= 2 players win something AND the player order changes; distinct by case.".into();
     ctx.assumptions = vec!["tallies are integer counts as in the README loop; f32 sums are not compared (3 x 1/3 need not round to 1)".into()];
     let budget = ctx.tier.pick(150_000u128, 1_500_000u128);
     let cases = ctx.tier.pick(1_200, 12_000);
@@ -271,6 +336,22 @@ pub fn run(ctx: &mut Ctx) {
     let cases = ctx.tier.pick(64, 960);
     ctx.run_random_brief(StreamCfg::new("wide_ranges", CLASSES, cases).shrink(60), || strategy(3_000_000u128, true), check, brief);
     ctx.require_class("wide_ranges", "range_over_255", cases * 3 / 4);
+    // weights whose product is order-sensitive around a natural threshold; all player orders
+    let cases = ctx.tier.pick(600, 12_000);
+    ctx.run_random_brief(
+        StreamCfg::new("order_sensitive_weight_products", CLASSES, cases).shrink(60),
+        threshold_strategy,
+        |c: &Case| {
+            let mut last = check(c)?;
+            for pi in [[0usize, 1, 2], [0, 2, 1], [1, 0, 2], [1, 2, 0], [2, 0, 1], [2, 1, 0]] {
+                let mut cc = c.clone();
+                cc.pi = pi.to_vec();
+                last = check(&cc)?;
+            }
+            Ok(last)
+        },
+        brief,
+    );
     if ctx.tier == Tier::Thorough {
         // all 24 suit permutations for a sample of configurations
         let cases = 2_400u64;
@@ -292,6 +373,17 @@ pub fn run(ctx: &mut Ctx) {
 }
 
 pub fn replay(stream: &str, path: &str, case: &Value) -> i32 {
+    if stream == "order_sensitive_weight_products" {
+        return replay_case::<Case>("C11", path, case, |c: &Case| {
+            let mut last = check(c)?;
+            for pi in [[0usize, 1, 2], [0, 2, 1], [1, 0, 2], [1, 2, 0], [2, 0, 1], [2, 1, 0]] {
+                let mut cc = c.clone();
+                cc.pi = pi.to_vec();
+                last = check(&cc)?;
+            }
+            Ok(last)
+        });
+    }
     if stream == "all_24_relabellings" {
         return replay_case::<Case>("C11", path, case, |c: &Case| {
             let mut last = None;
